@@ -13,11 +13,11 @@ cargo build --workspace --offline >> "$log" 2>&1 || { echo "$id: BUILD FAILS wit
 cargo test --workspace --no-fail-fast --offline > "$log.tests" 2>&1; trc=$?
 passed=$(grep -E "^test result" "$log.tests" | awk '{s+=$4} END {print s+0}')
 failed=$(grep -E "^test result" "$log.tests" | awk '{s+=$6} END {print s+0}')
-sh MUTANT/demo.sh > "$log.demo_with" 2>&1; with=$?
+bash MUTANT/demo.sh > "$log.demo_with" 2>&1; with=$?
 git clean -fdq -e MUTANT -e target >> "$log" 2>&1
 git checkout -q -- .
 cargo build --workspace --offline >> "$log" 2>&1
-sh MUTANT/demo.sh > "$log.demo_without" 2>&1; without=$?
+bash MUTANT/demo.sh > "$log.demo_without" 2>&1; without=$?
 git clean -fdq -e MUTANT -e target >> "$log" 2>&1
 git checkout -q -- .
 echo "$id: suite_with_change exit=$trc passed=$passed failed=$failed | demo_with_change exit=$with | demo_without_change exit=$without"
